@@ -9,6 +9,8 @@
 //	        then optionally ^hex.hex...: the provider's configured default headers, one "[Name: value]" each;
 //	        then optionally ~mw,mw...: the provider's middlewares: d<loc>.<hexname> = header/date, f<n> = a middleware
 //	        whose UpdateRequest fails at its n-th call, i = a middleware whose InitMiddleware fails)
+//	        "<p>!<keep>[^cfg]": decoder-level run (decoders.NewDecoder; Scan, BuildRequest, Release by hand; a delivery
+//	        is handed back when <keep> later ones have been scanned)
 //	uripost <passes p> <finalNL> <file> <line tokens...>
 //	raw     <passes p> <finalNL> <file> <line tokens...>
 //	json    <passes p> <array 0|1> <file> <entity tokens...>
@@ -59,6 +61,8 @@ func runCase(c string) string {
 	if hasChunks {
 		chunks = a07ammo.ParseChunks(chunkSpec)
 	}
+	// "<p>!<keep>": decoder-level run with Release of consumed ammo (a07ammo.RunDecoderRelease)
+	pf, keepSpec, hasKeep := strings.Cut(pf, "!")
 	preload := strings.HasSuffix(pf, "L")
 	p, _ := strconv.Atoi(strings.TrimSuffix(pf, "L"))
 	file := vh.UnHex(f[3])
@@ -71,6 +75,10 @@ func runCase(c string) string {
 	dec := f[0]
 	if dec == "json" {
 		dec = "jsonline"
+	}
+	if hasKeep {
+		keep, _ := strconv.Atoi(keepSpec)
+		return a07ammo.RunDecoderRelease(dec, file, p*n+1, cfgHeaders, keep)
 	}
 	if hasSched || hasChunks {
 		if !hasSched {
@@ -101,6 +109,7 @@ func gen(r *vh.Rand, tier string) []string {
 	out = append(out, a07ammo.GenRound5Cases(r, n/5)...)
 	out = append(out, a07ammo.GenCfgCases(r, n/5)...)
 	out = append(out, a07ammo.GenMWCases(r, n/10)...)
+	out = append(out, a07ammo.GenReleaseCases(r, n/10)...)
 	for i := 0; i < n; i++ {
 		out = append(out, a07ammo.GenURICase(r))
 		out = append(out, a07ammo.GenURIPostCase(r))
